@@ -62,6 +62,27 @@ def gen(ctx):
                     st = G.Backup(lo, hi, B.vals(vsk, df), G.Deref(G.Layout("strided", "u64", sizes, arr)))
                     st.lo_b, st.hi_b, st.df_b = [G.enc("u64", x) for x in lo], [G.enc("u64", x) for x in hi], df
                     cases.append({"cls": "deref-strided-" + prim, "stack": st, "cbs": B.coord_mix(rnd, "u64", st.lo_b, st.hi_b, ncoord, inside_bias=0.5)})
+    # coordinate scalar and value scalar of DIFFERENT kinds (backup over the library's own constant backend): the range test
+    # must be carried out on the coordinate as given — a test done after converting the coordinate to the value type would
+    # round it (double -> float, int beyond 2^24 -> float, float -> int)
+    pairs = [("f64", "f32"), ("i32", "f32"), ("u32", "f32"), ("i64", "f32"), ("u64", "f64"), ("f32", "i32"), ("f64", "i64"), ("f32", "u32")]
+    for (sk, osk) in pairs:
+        for N in (1, 2, 3):
+            for b in range(1 if q else 5):
+                M = rnd.choice([1, 2, 3, 4])
+                mode = rnd.choice(["small", "small", "wide", "extreme"]) if sk not in ("f32", "f64") else rnd.choice(["small", "small", "random"])
+                lo, hi = B.random_box(rnd, sk, N, mode=mode)
+                if sk in ("i32", "u32", "i64", "u64") and rnd.random() < 0.6:
+                    hi[0] = G.enc(sk, 2 ** 24 + rnd.choice([0, 2, 1000]))      # bounds where the float image of a neighbour collides
+                    if G.dec(sk, lo[0]) > G.dec(sk, hi[0]):
+                        lo[0] = G.enc(sk, 0)
+                cval = [B.random_scalar(rnd, osk, finite=True) for _ in range(M)]
+                df = [B.random_scalar(rnd, osk, finite=True) for _ in range(M)]
+                if df == cval:
+                    df[0] ^= 1
+                st = G.Backup(B.vals(sk, lo), B.vals(sk, hi), B.vals(osk, df), G.Constant(sk, N, osk, M, B.vals(osk, cval)))
+                st.lo_b, st.hi_b, st.df_b, st.const_b = lo, hi, df, cval
+                cases.append({"cls": "constant-mixed", "stack": st, "cbs": B.coord_mix(rnd, sk, lo, hi, ncoord, inside_bias=0.5)})
     return cases
 
 
@@ -120,6 +141,8 @@ def evaluate(ctx, cases, cfgs):
                 want, wcount, wtrace = list(st.df_b), 0, []
             elif cls == "nprobe":
                 want, wcount, wtrace = [cb[(t + 1) % N] for t in range(M)], 1, None
+            elif cls == "constant-mixed":
+                want, wcount, wtrace = list(st.const_b), 1, []
             else:
                 c = [int(x) for x in B.vals(sk, cb)]
                 idx = G.strided_idx(prim_sizes(st), c)
@@ -199,4 +222,6 @@ def replay(ctx):
         return run(ctx)
     st = G.from_json(c["stack"])
     st.lo_b, st.hi_b, st.df_b = c["lo_b"], c["hi_b"], c["df_b"]
+    if c["cls"] == "constant-mixed":
+        st.const_b = st.layers()[-1].cfg_words()
     return evaluate(ctx, [{"cls": c["cls"], "stack": st, "cbs": c["cbs"]}], [c.get("cfg") or "dbg"])
